@@ -197,12 +197,20 @@ fn write_transfac(out: &mut Vec<u8>, rec: &RecordModel, eol: &str) {
                 push_line(out, &format!("{:02}{}", i + 1, vals), eol);
             }
         }
+        3 => {
+            let hdr: String = rec.symbols.iter().map(|&s| format!(" {}", s as char)).collect();
+            push_line(out, &format!("P0{}", hdr), eol);
+            for (i, row) in rec.cells.iter().enumerate() {
+                let vals: String = row.iter().map(|v| format!(" {}", v)).collect();
+                push_line(out, &format!("{:02}{}", i + 1, vals), eol);
+            }
+        }
         _ => {
             let hdr: String = rec.symbols.iter().map(|&s| format!("{:>7}", s as char)).collect();
             push_line(out, &format!("P0{}", hdr), eol);
             for (i, row) in rec.cells.iter().enumerate() {
                 let vals: String = row.iter().map(|v| format!(" {:>6}", v)).collect();
-                let cons = if style == 3 { String::new() } else { format!("      {}", CONSENSUS[i % CONSENSUS.len()] as char) };
+                let cons = format!("      {}", CONSENSUS[i % CONSENSUS.len()] as char);
                 push_line(out, &format!("{:02}{}{}", i + 1, vals, cons), eol);
             }
         }
@@ -351,6 +359,8 @@ pub struct GenSpec {
     pub meta_off: usize,
     pub order_off: usize,
     pub style_off: usize,
+    /// admissible writer styles (cycled per record)
+    pub styles: Vec<usize>,
     pub vv: bool,
     pub crlf: bool,
 }
@@ -358,7 +368,7 @@ pub struct GenSpec {
 impl GenSpec {
     pub fn label(&self) -> String {
         format!(
-            "{}/{} n={} widths={:?} modes={:?} meta+{} order+{} style+{}{}{}",
+            "{}/{} n={} widths={:?} modes={:?} meta+{} order+{} styles={:?}+{}{}{}",
             self.fmt.name(),
             self.alpha.name(),
             self.n,
@@ -366,6 +376,7 @@ impl GenSpec {
             self.modes,
             self.meta_off,
             self.order_off,
+            self.styles,
             self.style_off,
             if self.vv { " VV" } else { "" },
             if self.crlf { " CRLF" } else { "" }
@@ -385,7 +396,6 @@ fn cell(mode: usize, r: usize, i: usize, j: usize, ncols: usize) -> u32 {
 pub fn build_records(spec: &GenSpec) -> Vec<RecordModel> {
     let lays = layouts(spec.fmt, spec.alpha);
     let nm = n_masks(spec.fmt);
-    let ns = n_styles(spec.fmt);
     (0..spec.n)
         .map(|r| {
             let width = spec.widths[r % spec.widths.len()];
@@ -424,14 +434,14 @@ pub fn build_records(spec: &GenSpec) -> Vec<RecordModel> {
                 Fmt::Uniprobe => {
                     let id = [
                         format!("Arid3a_primary_{}", r),
-                        format!("Gene:  Cha4-primary  Motif:  A.CTCCGCC  Enrichment Score:  0.49{}", r),
+                        format!("Gene:  Cha4-primary  Motif:  A.CTC  Score:  0.49{}", r),
                         format!("M{}", r),
                     ][v]
                         .clone();
                     (Some(id), None, None, None)
                 }
             };
-            RecordModel { id, accession, name, description, symbols, cells, style: (r + spec.style_off) % ns }
+            RecordModel { id, accession, name, description, symbols, cells, style: spec.styles[(r + spec.style_off) % spec.styles.len()] }
         })
         .collect()
 }
@@ -439,7 +449,7 @@ pub fn build_records(spec: &GenSpec) -> Vec<RecordModel> {
 /// The generated-file menu for one reader.  `quick` leaves out the largest files.
 pub fn menu(fmt: Fmt, alpha: Alpha, quick: bool) -> Vec<GenSpec> {
     let mut v = Vec::new();
-    let base = |n: usize| GenSpec { fmt, alpha, n, widths: WIDTHS.to_vec(), modes: (0..N_MODES).collect(), meta_off: 0, order_off: 0, style_off: 0, vv: false, crlf: false };
+    let base = |n: usize| GenSpec { fmt, alpha, n, widths: WIDTHS.to_vec(), modes: (0..N_MODES).collect(), meta_off: 0, order_off: 0, style_off: 0, styles: (0..n_styles(fmt)).collect(), vv: false, crlf: false };
     let nl = layouts(fmt, alpha).len();
     let nm = n_masks(fmt);
     let ns = n_styles(fmt);
@@ -476,14 +486,29 @@ pub fn menu(fmt: Fmt, alpha: Alpha, quick: bool) -> Vec<GenSpec> {
     v.push(GenSpec { widths: vec![2, 1], crlf: true, meta_off: 1, vv: true, ..base(2) });
     v.push(GenSpec { widths: vec![1, 7], crlf: true, meta_off: 2, order_off: 3, style_off: 1, ..base(3) });
     // (f) medium lists
-    let small_w = if alpha == Alpha::Protein { vec![1, 2] } else { WIDTHS.to_vec() };
+    let protein = alpha == Alpha::Protein;
+    let small_w = if protein { vec![1, 2] } else { WIDTHS.to_vec() };
     v.push(GenSpec { widths: small_w.clone(), vv: true, ..base(17) });
     v.push(GenSpec { widths: vec![2, 1, 7], meta_off: 5, order_off: 13, style_off: 2, ..base(17) });
-    v.push(GenSpec { widths: small_w.clone(), meta_off: 1, order_off: 1, style_off: 1, ..base(64) });
-    // (g) hundreds of records: many buffer compactions
-    v.push(GenSpec { widths: vec![1, 2], modes: vec![0, 1, 3], meta_off: 2, order_off: 2, vv: true, ..base(300) });
+    let compact: Vec<usize> = match fmt {
+        Fmt::Transfac => vec![3, 0],
+        _ => (0..ns).collect(),
+    };
+    if protein {
+        v.push(GenSpec { widths: vec![1], meta_off: 1, order_off: 1, style_off: 1, styles: compact.clone(), ..base(64) });
+    } else {
+        v.push(GenSpec { widths: vec![1, 2, 7], meta_off: 1, order_off: 1, style_off: 1, ..base(64) });
+    }
+    // (g) hundreds of records: many buffer compactions.  Cost of the single-cut sweep is quadratic in the
+    // file length, so the quick tier uses compact records (and DNA only); thorough adds the large ones.
+    if !protein {
+        v.push(GenSpec { widths: if fmt == Fmt::Uniprobe { vec![1] } else { vec![1, 2] }, modes: vec![0, 3], meta_off: 2, order_off: 2, styles: if fmt == Fmt::Transfac { vec![3] } else { compact.clone() }, vv: true, ..base(300) });
+    }
     if !quick {
-        v.push(GenSpec { widths: small_w, meta_off: 7, order_off: 9, style_off: 3, crlf: true, ..base(300) });
+        v.push(GenSpec { widths: vec![1, 2], modes: vec![0, 1, 3], meta_off: 2, order_off: 2, vv: true, ..base(300) });
+        if !protein {
+            v.push(GenSpec { widths: vec![1, 2, 7], meta_off: 7, order_off: 9, style_off: 3, crlf: true, ..base(300) });
+        }
     }
     v
 }
